@@ -311,6 +311,15 @@ def rule_line_start_indent(rep: Report, repo: Repo, rule: str) -> None:
                 continue
             n += 1
             problems = _line_starts(val, ind, o)
+            # a format specification (width / alignment / fill) between the indent and the text pads the line
+            from ..absint import subterms
+            terms = [val] + [x for lp in o.state.loops.values() for oc in lp["outcomes"] for x in oc["assign"].values()]
+            for root_t in terms:
+                for t in subterms(root_t):
+                    if isinstance(t, tuple) and t and t[0] == "fmt" and t[3]:
+                        problems = problems + [f"a value is formatted with the specification {t[3]!r}: padding shifts the text away "
+                                               f"from the indent (or truncates it)"]
+                        break
             rep.check(not problems, rule, where, show(val).replace("\n", "\\n")[:110],
                       f"a line of the element can start without the indent: {problems[0] if problems else ''} - inside a "
                       f"directive that line falls out of the directive body",
